@@ -5,10 +5,11 @@ LEVEL_TEXT = ("Bounded model checking over the same sequentialisation as C09 wit
               "parent thread that is inside a wrapped call: the harness continues as the child (same memory image, only the forking thread "
               "exists) which performs a complete wrapped call; the lock model asserts that the child never waits for a lock owned by a thread "
               "that does not exist in the child, and the child's call must complete and release its own record.")
-LEVEL_NOTE = ("Trusted: as C09; fork() copies the memory image and only the calling thread (POSIX). Known finding: no fork handler resets the "
-              "lock, so a fork taken while another thread holds it blocks the child forever; everything else is proved outside that window.")
+LEVEL_NOTE = ("Trusted: as C09; fork() copies the memory image and only the calling thread (POSIX); registered pthread_atfork handlers run "
+              "(prepare in the parent before the copy, child in the child); glibc records the owner of a recursive mutex by kernel TID. The pinned "
+              "tree's defect (no fork handler: child blocks on a lock held by a vanished thread) was repaired in /repo (known_findings.txt).")
 ASSUMPTIONS = tc.ASSUMPTIONS + ["the forking thread is outside the library at the fork (fork() is not called from inside the wrapper)",
-                                "known finding fork_while_lock_held: fork points at which the parent thread holds the lock are excluded in the passing query and confirmed by the kf_ query"]
+                                "a prepare handler that has to wait for the lock only delays the fork: that schedule equals one with a later fork point"]
 
 
 def queries(ctx):
